@@ -33,7 +33,7 @@
 
 typedef struct {
 	nng_msg *m;
-	uint8_t  st; // 0 unused, 1 handed to the library, 2 back / freed by us
+	uint8_t  st; // 0 unused, 1 handed to the library, 2 back / freed by us, 3 arrived at a full lossy queue
 } mrec;
 static mrec     reg[MAXSEQ];
 static uint32_t nextseq = 1;
@@ -377,6 +377,10 @@ m_recv(model *M, nng_msg *m)
 	}
 	if (reg[seq].st == 2) {
 		m_viol(M, "duplicate", "message %u delivered twice", seq);
+		return;
+	}
+	if (reg[seq].st == 3) {
+		m_viol(M, "bound/kept-beyond-depth", "message %u was delivered although the queue was full (depth %d) when it arrived", seq, M->cap);
 		return;
 	}
 	if (M->ptrcheck && reg[seq].m != m) {
@@ -1582,7 +1586,7 @@ a_feed(actx *A, bool inflight)
 			cs_evict_append(&M->cs, seq, M->cap);
 			vf_stat("api_legal_drops", 1);
 		} else {
-			reg[seq].st = 2; // dropped by a lossy protocol: legal
+			reg[seq].st = 3; // must be dropped by the lossy protocol (queue full)
 			vf_stat("api_legal_drops", 1);
 		}
 	} else {
